@@ -219,6 +219,7 @@ struct S {
     vidx: usize,
     kind: MinterKind,
     denom: u64,
+    airp: u128,
     factory: String,
     minter: Option<String>,
     src_minter: String,
@@ -257,6 +258,7 @@ impl S {
             vidx: 0,
             kind: MinterKind::Vending,
             denom: 0,
+            airp: 0,
             factory: String::new(),
             minter: None,
             src_minter: String::new(),
@@ -475,7 +477,8 @@ impl Sut for S {
         let mut w = World::new(now);
         let mut p = w.default_params(self.kind);
         p.min_mint_price = (self.denom, kv_u128(header, "minp").unwrap_or(0));
-        p.airdrop_mint_price = (self.denom, kv_u128(header, "airp").unwrap_or(0));
+        self.airp = kv_u128(header, "airp").unwrap_or(0);
+        p.airdrop_mint_price = (self.denom, self.airp);
         p.max_token_limit = kv_u64(header, "maxtok").unwrap_or(100) as u32;
         p.max_per_address_limit = 50;
         self.factory = w.new_factory(self.kind.factory(), &p).expect("factory");
@@ -935,7 +938,7 @@ fn mint_line(sut: &S, buyer: u64, funds: &str, mode: u64) -> String {
             let own = i.stages[ti].leaves.iter().find(|l| l.1 == buyer).cloned();
             let other = i.stages[ti].leaves.iter().find(|l| l.1 != buyer && l.1 < 9000).cloned();
             let enc = |t: usize, l: &LeafT| format!("p.{k}.{t}.{}.{}.{}", ox(&l.0), l.1, ox(&l.2));
-            match mode % 8 {
+            match mode % 10 {
                 0 | 1 | 2 => {
                     if let Some(l) = own.clone().or(other.clone()) {
                         // own leaf with own proof; an outsider presents someone else's proof and claims that leaf's stage/allocation
@@ -972,7 +975,24 @@ fn mint_line(sut: &S, buyer: u64, funds: &str, mode: u64) -> String {
                     }
                 }
                 6 => proof = "j".into(),
-                _ => proof = if mode % 16 == 7 { "b".into() } else { "-".into() },
+                8 => {
+                    // a genuine path out of ANOTHER whitelist's tree (same buyer)
+                    if let Some((k2, i2)) = sut.wls.iter().find(|(k2, i2)| **k2 != k && is_merkle(i2.kind) && !i2.stages.is_empty()) {
+                        if let Some(l) = i2.stages[0].leaves.iter().find(|l| l.1 == buyer).cloned() {
+                            stage = fmt_opt(&l.0);
+                            alloc = fmt_opt(&l.2);
+                            proof = format!("p.{k2}.0.{}.{}.{}", ox(&l.0), l.1, ox(&l.2));
+                        }
+                    }
+                }
+                9 => {
+                    // a leaf that was never committed (own address, invented allocation), "proved" with hashes of the right size
+                    let l: LeafT = (own.as_ref().and_then(|o| o.0), buyer, Some(own.as_ref().and_then(|o| o.2).unwrap_or(1) + 40));
+                    stage = fmt_opt(&l.0);
+                    alloc = fmt_opt(&l.2);
+                    proof = enc(ti, &l);
+                }
+                _ => proof = if mode % 20 == 7 { "b".into() } else { "-".into() },
             }
         } else if mode % 4 == 3 {
             proof = "j".into();
@@ -1044,7 +1064,7 @@ fn battery(ses: &mut Session, sut: &mut S, g: &mut Gen, heavy: bool) {
         let l = mint_line(sut, m, &funds_str(cur), mode);
         do_step(ses, sut, &l);
         let o = g.buyer(&OUTSIDERS);
-        let mode = g.rng.below(16);
+        let mode = g.rng.below(20);
         let l = mint_line(sut, o, &funds_str(cur), mode);
         do_step(ses, sut, &l);
         if heavy {
@@ -1064,9 +1084,15 @@ fn battery(ses: &mut Session, sut: &mut S, g: &mut Gen, heavy: bool) {
             let m2 = g.buyer(&MEMBERS);
             let l = mint_line(sut, m2, &funds_str(other), 0);
             do_step(ses, sut, &l);
+            // the same buyer again, twice (whitelist / public / stage limits)
+            for _ in 0..2 {
+                let cur2 = current_price(sut);
+                let l = mint_line(sut, m, &funds_str(cur2), 0);
+                do_step(ses, sut, &l);
+            }
             if sut.kind.is_merkle() {
                 let m3 = g.buyer(&MEMBERS);
-                let mode = 3 + g.rng.below(13);
+                let mode = 3 + g.rng.below(17);
                 let l = mint_line(sut, m3, &funds_str(cur), mode);
                 do_step(ses, sut, &l);
             }
@@ -1075,7 +1101,8 @@ fn battery(ses: &mut Session, sut: &mut S, g: &mut Gen, heavy: bool) {
     // airdrop by the admin (and rarely by a stranger)
     let who = if g.rng.chance(1, 8) { 20 } else { ADMIN };
     let r = g.buyer(&OUTSIDERS);
-    do_step(ses, sut, &format!("mint_to sender={who} rcpt={r} funds=-"));
+    let af = if sut.airp == 0 || g.rng.chance(1, 10) { "-".to_string() } else { format!("{}:{}", sut.denom, sut.airp) };
+    do_step(ses, sut, &format!("mint_to sender={who} rcpt={r} funds={af}"));
     // identity updates: probe the gates without moving the schedule
     let who = if g.rng.chance(1, 10) { 21 } else { ADMIN };
     do_step(ses, sut, &format!("upd_start sender={who} t={}", snap.start));
@@ -1120,7 +1147,9 @@ fn sweep_case(ses: &mut Session, sut: &mut S, g: &mut Gen, v: usize, wk: WlKind,
     let s = t0 + 2000;
     let denom = if g.rng.chance(1, 6) { 1 } else { 0 };
     let minp: u128 = 50_000_000;
-    let airp: u128 = if g.rng.chance(1, 4) { 7_000_000 } else { 0 };
+    // an uncapped open edition needs an end time and a non-zero airdrop price
+    let uncapped = kind.is_open_edition() && shape % 5 != 4 && g.rng.chance(1, 3);
+    let airp: u128 = if uncapped || g.rng.chance(1, 4) { 7_000_000 } else { 0 };
     ses.begin_case(sut, &format!("{} sweep wk={} shape={}", header(v, t0, denom, minp, airp, 60), wl_kind_idx(wk), shape));
     let wins = windows(shape, s);
     let wl_denom = if g.rng.chance(1, 12) { 1 - denom } else { denom };
@@ -1132,7 +1161,7 @@ fn sweep_case(ses: &mut Session, sut: &mut S, g: &mut Gen, v: usize, wk: WlKind,
     do_step(ses, sut, &l2);
     let oe = kind.is_open_edition();
     let end = if oe && shape % 5 != 4 { format!("{}", s + 700 + (shape % 3) * 100) } else { "-".into() };
-    let ntok = if oe && end != "-" && g.rng.chance(1, 3) { "-".to_string() } else { "60".to_string() };
+    let ntok = if uncapped { "-".to_string() } else { "60".to_string() };
     let attach_at_create = g.rng.chance(2, 3) && kind != MinterKind::TokenMerge;
     let price = if kind == MinterKind::TokenMerge { 0 } else { 100_000_000u128 + g.rng.below(5) as u128 };
     let limit = 1 + g.rng.below(3);
@@ -1338,6 +1367,73 @@ fn random_case(ses: &mut Session, sut: &mut S, g: &mut Gen, v: usize, steps: u64
     ses.end_case();
 }
 
+/// instantiate-time checks at exact instants: the minter is created at t-1 / t / t+1 of a whitelist edge (with that
+/// whitelist attached), or with its start at now-1 / now / now+1 / genesis-1 / genesis / genesis+1
+fn create_boundary_case(ses: &mut Session, sut: &mut S, g: &mut Gen, v: usize, wk: WlKind, pos: u64) {
+    let kind = variant_kind(v);
+    let oe = kind.is_open_edition();
+    let tm = kind == MinterKind::TokenMerge;
+    let early = pos >= 12; // the clock is before genesis
+    let t0 = if early { GENESIS - 50 } else { GENESIS + 1_000_000 + g.rng.below(1000) * 3 };
+    ses.begin_case(sut, &format!("{} create-boundary wk={} pos={}", header(v, t0, 0, 50_000_000, if oe { 5_000_000 } else { 0 }, 60), wl_kind_idx(wk), pos));
+    let base = t0.max(GENESIS) + 1000;
+    let wins = vec![(base, base + 200), (base + 200, base + 300)];
+    if !tm {
+        let l = wl_line(1, wk, 0, &wins, 60_000_000, &mut g.rng);
+        do_step(ses, sut, &l);
+    }
+    let price = if tm { 0 } else { 100_000_000u128 };
+    let wl = if tm { "-" } else { "1" };
+    let edges = interesting_instants(sut);
+    if pos < 12 && !edges.is_empty() {
+        // at a whitelist edge
+        let e = edges[(pos / 3) as usize % edges.len()];
+        let now = e - 1 + pos % 3;
+        do_step(ses, sut, &format!("t now={now}"));
+        let start = now + 5000;
+        let end = if oe { (start + 100).to_string() } else { "-".into() };
+        do_step(ses, sut, &format!("create sender={ADMIN} start={start} end={end} wl={wl} price={price} limit=2 ntok=20"));
+    } else {
+        let now = sut.w.time();
+        let start = match pos % 6 {
+            0 => now - 1,
+            1 => now,
+            2 => now + 1,
+            3 => GENESIS - 1,
+            4 => GENESIS,
+            _ => GENESIS + 1,
+        };
+        let end = if oe {
+            match g.rng.below(4) {
+                0 => start.to_string(),
+                1 => (start + 1).to_string(),
+                2 => (start - 1).to_string(),
+                _ => (start + 500).to_string(),
+            }
+        } else {
+            "-".into()
+        };
+        do_step(ses, sut, &format!("create sender={ADMIN} start={start} end={end} wl=- price={price} limit=2 ntok=20"));
+    }
+    // if it exists, probe the genesis bound of the start update from before genesis
+    if sut.minter.is_some() {
+        for t in [GENESIS - 1, GENESIS, GENESIS + 1] {
+            if t >= sut.w.time() {
+                do_step(ses, sut, &format!("upd_start sender={ADMIN} t={t}"));
+            }
+        }
+        battery(ses, sut, g, false);
+        if early {
+            // walk across genesis
+            for t in [GENESIS - 1, GENESIS, GENESIS + 1] {
+                do_step(ses, sut, &format!("t now={t}"));
+                battery(ses, sut, g, false);
+            }
+        }
+    }
+    ses.end_case();
+}
+
 fn main() {
     let mut ses = Session::new("C04");
     let mut sut = S::new();
@@ -1361,6 +1457,26 @@ fn main() {
         for _ in 0..2 {
             shape += 1;
             sweep_case(&mut ses, &mut sut, &mut g, 9, WlKind::Plain, shape, true);
+        }
+    }
+    // 1b. creation / genesis boundaries
+    let reps = ses.scale(1, 6);
+    for _ in 0..reps {
+        for v in 0..10usize {
+            let kinds: Vec<WlKind> = if v == 9 {
+                vec![WlKind::Plain]
+            } else if variant_kind(v).is_flex() {
+                vec![WlKind::Flex, WlKind::TieredFlex]
+            } else if variant_kind(v).is_merkle() {
+                vec![WlKind::Merkle, WlKind::TieredMerkle]
+            } else {
+                vec![WlKind::Plain, WlKind::Tiered]
+            };
+            for wk in kinds {
+                for pos in 0..18u64 {
+                    create_boundary_case(&mut ses, &mut sut, &mut g, v, wk, pos);
+                }
+            }
         }
     }
     // 2. random walks with real schedule changes
